@@ -161,6 +161,8 @@ class Extractor(Translator):
     STREAM_RE = re.compile(r"std::(__cxx11::)?basic_(o|i|io)?(string)?stream<|std::basic_ostream<")
 
     def droppable(self, s):
+        if self.opts.get("keep_streams"):
+            return None          # the unit models the stream operations itself (intercepts)
         s2 = s
         while s2.get("kind") in ("ExprWithCleanups", "ParenExpr", "ImplicitCastExpr"):
             s2 = s2["inner"][0]
@@ -172,7 +174,7 @@ class Extractor(Translator):
 
     def vardecl(self, d):
         info = self.ast.D.get(d["id"], {})
-        if self.STREAM_RE.match(info.get("type", "")) and not (self.opts.get("bounded_str") and "stringstream" in info.get("type", "")):
+        if self.STREAM_RE.match(info.get("type", "")) and not self.opts.get("keep_streams") and not (self.opts.get("bounded_str") and "stringstream" in info.get("type", "")):
             self.rule("dropped:string-stream variable")
             return []
         return super().vardecl(d)
